@@ -468,43 +468,68 @@ func runC01(c *Ctx) {
 				}
 			}
 			sortStrings(kinds)
-			handled := map[string]*ssa.TypeAssert{}
-			instrs(f, func(in ssa.Instruction) {
-				if ta, ok := in.(*ssa.TypeAssert); ok && ta.CommaOk {
-					handled[types.TypeString(ta.AssertedType, shortQ)] = ta
-				}
-			})
+			// replayed once per notification type (same-package helpers entered): the type's own arm is taken on
+			// every path, and the Update / Delete arms reach Tree.Add / Tree.Delete
+			nP := ssa.Value(param(f, 1))
 			var missing []string
+			addOK, delOK := false, false
 			for _, k := range kinds {
-				if handled[k] == nil {
-					missing = append(missing, k)
+				kind := k
+				cls := func(e *PPA, st *State, rv RV) string {
+					ex, ok := rv.V.(*ssa.Extract)
+					if !ok || ex.Index != 1 {
+						return ""
+					}
+					ta, ok := ex.Tuple.(*ssa.TypeAssert)
+					if !ok || !ta.CommaOk || e.Resolve(st, RV{rv.F, ta.X}).V != nP {
+						return ""
+					}
+					return "IS:" + types.TypeString(ta.AssertedType, shortQ)
+				}
+				b := map[string]bool{}
+				for _, k2 := range kinds {
+					b["IS:"+k2] = k2 == kind
+				}
+				at := &Atoms{Class: cls, Bool: b}
+				e := &PPA{Cond: at.Cond, MaxVisits: 2, TraceBranches: true, Watch: func(ev *Ev) bool {
+					return ev.Label == "if" || ev.Label == "call:(*ctree.Tree).Add" || ev.Label == "call:(*ctree.Tree).Delete"
+				}}
+				e.Run(f)
+				c.Paths += len(e.Paths)
+				armTaken, n := true, 0
+				adds, dels := true, true
+				for i := range e.Paths {
+					p := &e.Paths[i]
+					if p.End != "return" {
+						continue
+					}
+					n++
+					taken := p.Has(func(ev *Ev) bool {
+						return ev.Label == "if" && ev.Taken && len(ev.Args) > 0 && cls(e, newState(), ev.Args[0]) == "IS:"+kind
+					})
+					if !taken {
+						armTaken = false
+					}
+					if !p.Has(lbl("call:(*ctree.Tree).Add")) {
+						adds = false
+					}
+					if !p.Has(lbl("call:(*ctree.Tree).Delete")) {
+						dels = false
+					}
+				}
+				if !armTaken || n == 0 {
+					missing = append(missing, kind)
+				}
+				if kind == "client.Update" {
+					addOK = adds && n > 0
+				}
+				if kind == "client.Delete" {
+					delOK = dels && n > 0
 				}
 			}
 			c.Check(len(missing) == 0 && len(kinds) >= 5, "C01.arms", fnName(f), "an arm for every client.Notification type", P.Pos(f.Pos()), fmt.Sprintf("types %v, missing %v", kinds, missing))
-			armCalls := func(k, callee string) bool {
-				ta := handled[k]
-				if ta == nil {
-					return false
-				}
-				for _, r := range *ta.Referrers() {
-					ex, ok := r.(*ssa.Extract)
-					if !ok || ex.Index != 1 {
-						continue
-					}
-					for _, rr := range *ex.Referrers() {
-						if ifi, ok := rr.(*ssa.If); ok {
-							for _, in := range ifi.Block().Succs[0].Instrs {
-								if call, ok := in.(*ssa.Call); ok && calleeName(&call.Call) == callee {
-									return true
-								}
-							}
-						}
-					}
-				}
-				return false
-			}
-			c.Check(armCalls("client.Update", "(*ctree.Tree).Add"), "C01.arms", fnName(f), "Update arm stores the leaf (Tree.Add)", P.Pos(f.Pos()), "")
-			c.Check(armCalls("client.Delete", "(*ctree.Tree).Delete"), "C01.arms", fnName(f), "Delete arm removes the subtree (Tree.Delete)", P.Pos(f.Pos()), "")
+			c.Check(addOK, "C01.arms", fnName(f), "Update arm stores the leaf (Tree.Add)", P.Pos(f.Pos()), "")
+			c.Check(delOK, "C01.arms", fnName(f), "Delete arm removes the subtree (Tree.Delete)", P.Pos(f.Pos()), "")
 		}
 	}
 }
